@@ -1,8 +1,8 @@
 """C11 — clients sharing one core package keep working as more are generated.
 
 The implementation is always run in worker subprocesses of this file (`--worker`), so that the
-source tree under test can be switched with VERIF_IMPL_SRC (default /repo/src) for mutation tests
-without touching /repo.  Each worker replays whole histories of generate calls into one scratch
+source tree under test follows framework.REPO (VERIF_REPO_ROOT, default /repo), so seeded changes can be
+tested on a scratch checkout without touching /repo.  Each worker replays whole histories of generate calls into one scratch
 project root under build/pipeline/, and after every call
   * reads .exception_registry.json, the classes of exception_aliases.py and the names every generated
     client imports from the core (observation compared with the Coq model Model/Registry.v), and
@@ -30,7 +30,9 @@ LAYOUTS = ["core", "shared.core", "a.b.core", "a.b.c.core", "c1.core", "c1.x.cor
 # three base specs (declared statuses) + a pool for "changing specs"
 BASE_SPECS = [[200, 404], [201, 409, 422], [200, 404, 500, 503]]
 POOL = [400, 404, 409, 422, 500, 503]
-IMPL_SRC = os.environ.get("VERIF_IMPL_SRC", "/repo/src")
+from framework import REPO  # noqa: E402  (follows VERIF_REPO_ROOT; default /repo)
+
+IMPL_SRC = os.environ.get("VERIF_IMPL_SRC") or str(REPO / "src")
 
 TRUSTED = [
     "Coq 8.16.1 kernel + vm_compute (witness theorems and correspondence evaluation)",
